@@ -23,7 +23,7 @@ RULE_TEXT = ('runs = seeded random suite hierarchies (depth <= 3, <= 3 sub-suite
              'file); a fixed sweep assigns every verdict to a case of a one-suite and of a two-level hierarchy. Each '
              'plan runs with both reporters. Non-trivial = >= 2 cases or a structural fault; distinct = (hierarchy '
              'shape, listing styles, multiset of endings, structural fault).')
-REACH_PROBES = ['invalid_not_text', 'case_name_with_glob_characters_listed_in_quotes', 'launched_with_directory_argument', 'launched_from_another_directory', 'case_listed_twice_in_one_suite', 'case_listed_twice_ends_differently', 'section_reopened', 'suites_by_glob_of_directories', 'suites_by_glob_of_files', 'ending_processor_fails', 'verdict_PASS', 'verdict_FAIL', 'verdict_XFAIL', 'verdict_XPASS', 'verdict_SKIPPED',
+REACH_PROBES = ['suite_with_preprocessor_and_several_cases', 'invalid_not_text', 'case_name_with_glob_characters_listed_in_quotes', 'launched_with_directory_argument', 'launched_from_another_directory', 'case_listed_twice_in_one_suite', 'case_listed_twice_ends_differently', 'section_reopened', 'suites_by_glob_of_directories', 'suites_by_glob_of_files', 'ending_processor_fails', 'verdict_PASS', 'verdict_FAIL', 'verdict_XFAIL', 'verdict_XPASS', 'verdict_SKIPPED',
                 'verdict_VALIDATION_ERROR', 'verdict_HARD_ERROR', 'verdict_INTERNAL_ERROR', 'verdict_SYNTAX_ERROR',
                 'verdict_FILE_ACCESS_ERROR', 'ending_act_syntax', 'ending_unreadable', 'ending_timeout', 'all_ok',
                 'some_unsuccessful', 'sub_suite', 'depth_3', 'glob_listing', 'directory_reference', 'invalid_twice',
@@ -58,7 +58,7 @@ ENDING_NAMES = sorted(ENDINGS)
 # only for a case that is listed twice: its action ends differently the second time it is run (FAIL, then PASS)
 ENDINGS['FLAKY'] = ('[setup]\n% mark-{id}\n[act]\n% flaky-{id}\n[assert]\nexit-code == 0\n', 'FAIL', True)
 STRUCT_FAULTS = ['twice', 'twice_other_spelling', 'cycle', 'self', 'missing_suite', 'missing_case', 'syntax_root',
-                 'syntax_sub', 'not_text_root', 'not_text_sub']
+                 'syntax_sub', 'not_text_root', 'not_text_sub', 'syntax_conf_root', 'syntax_conf_sub']
 
 
 def total_runs(tier):
@@ -123,7 +123,9 @@ def gen_hierarchy(g, force_subs=False):
                 cases[-1]['odd_name'] = True
         fname = 'exactly.suite' if ref == 'dir' else ('%s.suite' % key)
         h[key] = {'dir': d, 'file': fname, 'subs': [], 'cases': cases, 'style': g.choice(['explicit', 'explicit', 'glob', 'mixed']),
-                  'ref': ref, 'setup_marker': g.random() < 0.4}
+                  'ref': ref, 'setup_marker': g.random() < 0.4,
+                  # the cases of the suite are read through a preprocessor (one that works like cat: all its operands)
+                  'preprocessor': g.random() < 0.2}
         if depth < 3:
             n_subs = g.choice([0, 0, 1, 2, 3]) if depth > 1 or not force_subs else g.choice([1, 2, 3])
             for _ in range(n_subs):
@@ -148,6 +150,11 @@ def gen_hierarchy(g, force_subs=False):
                 h[sk]['ref'] = 'dir' if style == 'glob_dirs' else 'file'
                 h[sk]['file'] = 'exactly.suite' if style == 'glob_dirs' else '%s.suite' % sk
             s['subs'] = sorted(s['subs'], key=lambda sk: h[sk]['dir'])
+    for s_ in h.values():
+        if s_.get('preprocessor'):
+            for c in s_['cases']:
+                if c['ending'] == 'UNREADABLE':
+                    c['ending'] = 'PASS'  # (who fails to read the file - Exactly or its preprocessor - is another question)
     # explicit listings are written in a random order: that order is the listing order
     for s in h.values():
         if s['style'] in ('explicit', 'mixed'):
@@ -256,6 +263,8 @@ def build_world(plan, w):
         lines = []
         case_lines_all, _order = listing(s)
         head_cases = []
+        if s.get('preprocessor') and not (s.get('reopen') and len(case_lines_all) >= 2):
+            lines += ['[conf]', 'preprocessor = pp -x']
         if s.get('reopen') and len(case_lines_all) >= 2:
             # the first case lines come before any header (default section = cases); the rest in a re-opened [cases]
             k = max(1, len(case_lines_all) // 2)
@@ -357,6 +366,12 @@ def build_world(plan, w):
     elif fault == 'syntax_sub':
         tp = os.path.join(w.home, suite_path(h, keys[0])) if keys else rootp
         append(tp, '[cases\nbroken header\n')
+    elif fault in ('syntax_conf_root', 'syntax_conf_sub'):
+        # a [conf] instruction of the suite that is not well-formed
+        tp = os.path.join(w.home, suite_path(h, keys[0])) if (keys and fault == 'syntax_conf_sub') else rootp
+        v = ['preprocessor =', 'preprocessor =   ', 'preprocessor', 'actor =', 'no-such-conf-instruction x',
+             "preprocessor = 'unterminated"][int(plan['run_seed'][:4], 16) % 6]
+        append(tp, '[conf]\n%s\n' % v)
     elif fault in ('not_text_root', 'not_text_sub'):
         # a suite file whose bytes are not text in the encoding in use (the byte 0xE9 alone is not UTF-8): it cannot be
         # read as a suite, whatever it was meant to say
@@ -408,7 +423,7 @@ def execute(plan, scratch):
     faults = [{'id': 'ax' + c['id'], 'step': 'main', 'kind': 'raise_exc', 'exc': 'RuntimeError'}
               for s in plan['hierarchy'].values() for c in s['cases'] if c['ending'] == 'INTERNAL_ERROR']
     procs = {'atc': {'exit': 0}, 'failing': {'exit': 3, 'stderr': 'boom\n'}, 'stall': {'duration': 'inf'},
-             'nostart': {'spawn_error': 'ENOENT'}}
+             'nostart': {'spawn_error': 'ENOENT'}, 'pp': {'exit': 0, 'cat_last_arg_file': True}}
     for s_ in plan['hierarchy'].values():
         for c in s_['cases']:
             if c['ending'] == 'FLAKY':
@@ -467,7 +482,8 @@ def _probes(plan, hist):
     if f:
         pr['invalid_' + {'twice': 'twice', 'twice_other_spelling': 'twice', 'cycle': 'cycle', 'self': 'cycle', 'missing_suite': 'missing_suite',
                          'missing_case': 'missing_case', 'syntax_root': 'syntax', 'syntax_sub': 'syntax',
-                         'not_text_root': 'not_text', 'not_text_sub': 'not_text'}[f]] = 1
+                         'not_text_root': 'not_text', 'not_text_sub': 'not_text',
+                         'syntax_conf_root': 'syntax', 'syntax_conf_sub': 'syntax'}[f]] = 1
     else:
         for c in ex:
             pr['verdict_' + c['ident']] = 1
@@ -494,6 +510,8 @@ def _probes(plan, hist):
             pr['directory_reference'] = 1
         if any(c.get('odd_name') and '[' in f for s_ in h.values() for c, f in listing(s_)[1]):
             pr['case_name_with_glob_characters_listed_in_quotes'] = 1
+        if any(s_.get('preprocessor') and len(s_['cases']) >= 2 for s_ in h.values()):
+            pr['suite_with_preprocessor_and_several_cases'] = 1
         if plan.get('launch'):
             pr['launched_' + {'dir': 'with_directory_argument', 'elsewhere': 'from_another_directory'}[plan['launch']]] = 1
         if has_double_listing(plan):
